@@ -93,3 +93,6 @@ Proof.
   intros H1 H2. unfold slice.
   destruct (N.leb_spec a b); [|lia]. destruct (Nat.leb_spec (N.to_nat b) (length l)); [reflexivity|lia].
 Qed.
+
+Lemma map_repeat' {A B} (f : A -> B) (a : A) n : map f (repeat a n) = repeat (f a) n.
+Proof. induction n as [|n IH]; cbn; [reflexivity|rewrite IH; reflexivity]. Qed.
